@@ -116,7 +116,10 @@ def apply(doc, muts):
             cur = [type(o) for o in order].index(type(val)) if type(val) in [type(o) for o in order] \
                 else 0
             shift = (m['at'] // 7) % 5 + 1
-            cont[key] = copy.deepcopy(order[(cur + shift) % len(order)])
+            new = order[(cur + shift) % len(order)]
+            if (m['at'] // 35) % 3 == 1:  # the falsy member of the chosen type
+                new = {bool: False, int: 0, str: ''}.get(type(new), new)
+            cont[key] = copy.deepcopy(new)
             op = f'retype-{type(cont[key]).__name__}'
         else:
             cont[key] = arg
